@@ -28,6 +28,7 @@ type RuleSpec struct {
 	// item rules of arrays
 	Item *RuleSpec
 
+	ExplicitUnspecified bool // the inline enum declares UNSPECIFIED explicitly
 	StrMin, StrMax *string // date / decimal bounds
 	ListFilter, ListSort, ListSearchable bool
 
@@ -45,6 +46,7 @@ func (rs *RuleSpec) program() *Program {
 	switch rs.Family {
 	case "enum":
 		e := enumD("", "ALPHA", "BETA", "GAMMA")
+		e.ExplicitUnspecified = rs.ExplicitUnspecified
 		t = InlineOf(e)
 	case "object":
 		t = InlineOf(obj("", fld("x", T(TString))))
@@ -206,6 +208,8 @@ func RuleSpecs() []*RuleSpec {
 	add(&RuleSpec{ID: "enum:in-two", Family: "enum", Kind: TEnum, In: []string{"ALPHA", "GAMMA"}, Attrs: []string{`rules.in = ["ALPHA", "GAMMA"]`}})
 	add(&RuleSpec{ID: "enum:notin-one", Family: "enum", Kind: TEnum, NotIn: []string{"BETA"}, Attrs: []string{`rules.notIn = ["BETA"]`}})
 	add(&RuleSpec{ID: "enum:notin-two", Family: "enum", Kind: TEnum, NotIn: []string{"BETA", "GAMMA"}, Attrs: []string{`rules.notIn = ["BETA", "GAMMA"]`}})
+	add(&RuleSpec{ID: "enum:notin-unspecified", Family: "enum", Kind: TEnum, ExplicitUnspecified: true, NotIn: []string{"UNSPECIFIED", "BETA"}, Attrs: []string{`rules.notIn = ["UNSPECIFIED", "BETA"]`}})
+	add(&RuleSpec{ID: "enum:in-unspecified", Family: "enum", Kind: TEnum, ExplicitUnspecified: true, In: []string{"UNSPECIFIED", "ALPHA"}, Attrs: []string{`rules.in = ["UNSPECIFIED", "ALPHA"]`}})
 	// arrays
 	items := []*RuleSpec{
 		{ID: "string", Family: "string", Kind: TString},
